@@ -178,9 +178,10 @@ FilterRef(f, v, a) ==
     [] f = "lower" -> S([i \in 1..Len(StrOf(v)) |-> LoAtom(StrOf(v)[i])])
     [] f = "add" -> IF v.k = "int" /\ a.k = "int" THEN I(v.n + a.n) ELSE S(StrOf(v) \o StrOf(a))
     [] f = "divisibleby" -> B(IntOf(a) # 0 /\ IntOf(v) % (IF IntOf(a) = 0 THEN 1 ELSE IF IntOf(a) < 0 THEN 0 - IntOf(a) ELSE IntOf(a)) = 0)
-    [] f = "get_digit" ->    \* n-th digit from the right of a non-negative integer; anything else: the input
-         LET n == IntOf(a) d == IntStr(v.n) IN
-         IF v.k # "int" \/ v.n < 0 \/ n < 1 \/ n > Len(d) THEN v ELSE I(v.n \div (10 ^ (n - 1)) % 10)
+    [] f = "get_digit" ->    \* n-th digit from the right of an integer as it is written (the digits of a negative number are those of
+                             \* its absolute value; the position of the sign itself is not settled and not generated); anything else: the input
+         LET n == IntOf(a) m == IF v.k = "int" /\ v.n < 0 THEN 0 - v.n ELSE v.n d == IntStr(m) IN
+         IF v.k # "int" \/ n < 1 \/ n > Len(d) THEN v ELSE I((m \div (10 ^ (n - 1))) % 10)
     [] f = "pluralize" ->    \* a: "" (default s), "es", or "y,ies"
          IF v.k # "int" THEN ErrV("pluralize works on numbers")
          ELSE LET parts == SplitOn(StrOf(a), ",", <<>>, <<>>) IN
